@@ -197,6 +197,9 @@ type MapFetcher struct {
 	Errs     map[string]error
 	// Exact: return the very pointer (no copy) - used by the pristine-profile monitor.
 	Exact bool
+	// Remote: report the source string as the URL the profile came from, as a fetcher for remote
+	// profiles does (pprof then saves a local copy)
+	Remote bool
 }
 
 // Fetch implements plugin.Fetcher.
@@ -208,10 +211,14 @@ func (m *MapFetcher) Fetch(s string, _, _ time.Duration) (*profile.Profile, stri
 	if !ok {
 		return nil, "", fmt.Errorf("no such source %s", s)
 	}
-	if m.Exact {
-		return p, "", nil
+	url := ""
+	if m.Remote {
+		url = s
 	}
-	return p.Copy(), "", nil
+	if m.Exact {
+		return p, url, nil
+	}
+	return p.Copy(), url, nil
 }
 
 // NopSym does not symbolize.
